@@ -82,12 +82,24 @@ def _solve(i):
         return i, "error", time.time() - t0, None, "-", traceback.format_exc()
 
 
+def default_procs():
+    """16 workers on an idle machine; fewer when the machine is already oversubscribed (verdicts must not depend on load)."""
+    if os.environ.get("HWV_PROCS"):
+        return int(os.environ["HWV_PROCS"])
+    try:
+        load = os.getloadavg()[0]
+    except OSError:
+        load = 0
+    ncpu = os.cpu_count() or 16
+    return ncpu if load < ncpu / 2 else max(3, ncpu // 4)
+
+
 def solve_all(obs, timeout_s=60, procs=None):
     """-> list of dict(name, kind, expect, result, seconds, model, backend, note)"""
     global _OBS, _TIMEOUT_MS
     _OBS = obs
     _TIMEOUT_MS = int(timeout_s * 1000)
-    procs = procs or min(int(os.environ.get("HWV_PROCS", "16")), max(1, len(obs)))
+    procs = procs or min(default_procs(), max(1, len(obs)))
     res = [None] * len(obs)
     if not obs:
         return []
@@ -168,6 +180,12 @@ class Unroller:
                 val = model.eval(self.frame_vars(t)[str(v)][1], model_completion=True)
                 row[n] = val.as_long()
             tr.append(row)
+        # rigid / unconstrained-init ghosts (witness indices): record the value the solver chose, so that the replay
+        # evaluates the ensures for the same witness (keys "g.<name>" in row 0; ignored by the simulator driver)
+        for n, (v, init) in self.c.ghosts.items():
+            if init is None and tr and z3.is_bv(v):
+                val = model.eval(self.frame_vars(0)[str(v)][1], model_completion=True)
+                tr[0]["g." + n] = val.as_long()
         return tr
 
 
@@ -192,6 +210,8 @@ def bmc(c, targets, depth, timeout_s=60, extra_levels=1):
             break
         left = timeout_s - (time.time() - t0)
         if left <= 0:
+            for n, _ in remaining:
+                found[n] = "timeout"
             return found, time.time() - t0
         s.set("timeout", int(left * 1000))
         inst = [(n, un.at(e, t)) for n, e in remaining]
@@ -200,11 +220,18 @@ def bmc(c, targets, depth, timeout_s=60, extra_levels=1):
             s.add(z3.Or(*[x for _, x in inst]))
             r = s.check()
             s.pop()
+            if r == z3.unknown:
+                for n, _ in remaining:
+                    found[n] = "timeout"
+                return found, time.time() - t0
             if r != z3.sat:
                 continue
         for n, x in inst:
             left = timeout_s - (time.time() - t0)
             if left <= 0:
+                for n2, _ in inst:
+                    if found[n2] is None:
+                        found[n2] = "timeout"
                 return found, time.time() - t0
             s.set("timeout", int(left * 1000))
             s.push()
